@@ -101,6 +101,48 @@ def check_new_work_queued(ctx, f, s_p):
         ctx.ob(1, "K3", "every job built for arriving / failed work is put on the queue of its own priority in the same round", ok, f, fills[0], construct=f"for job in {J}: queue.append(job)", detail=d)
 
 
+def check_retry_record(ctx, f, num=4):
+    """A waiting job is sized - and, when the doubled size no longer fits, dropped - by the retry record attached to it.  The record of a job
+    built for arriving work must be the one registered for the job's own operators: `table.get(<first operator of the job's ops>.id)`.
+    A record looked up for some other operator sizes fresh work as a retry (or a retry as fresh work) and can leave a ready operator
+    waiting although the pools have room."""
+    from ..util import single_defs
+    g = cfg_of(f, subst_env=False)
+    env = single_defs(f)
+    n_sites = 0
+    for c in calls_named(f, "WaitingQueueJob"):
+        rs = norm.kwarg(c, "retry_stats", 3)
+        ops = norm.kwarg(c, "ops", 2)
+        if rs is None or ops is None or (isinstance(rs, ast.Constant) and rs.value is None) or (isinstance(rs, ast.Call) and norm.call_name(rs) == "RetryStats"):
+            continue
+        vals = [rs]
+        if isinstance(rs, ast.Name):
+            vals = [d.value for d in sched.reaching_defs(f, g, c, rs.id) if isinstance(d, ast.Assign)]
+        if any(isinstance(v, ast.Call) and norm.call_name(v) == "RetryStats" for v in vals):
+            continue    # the job of failed work: its record is built from the failed result itself (C16#5 / ob_retry_record_plain)
+        n_sites += 1
+        want = None
+        if isinstance(ops, ast.List) and len(ops.elts) == 1:
+            want = norm.U(ops.elts[0])
+        elif isinstance(ops, ast.Name):
+            want = f"{ops.id}[0]"
+        ok = bool(vals) and want is not None
+        got = []
+        for v in vals:
+            okv = False
+            if isinstance(v, ast.Constant) and v.value is None:
+                okv = True
+            elif isinstance(v, ast.Call) and isinstance(v.func, ast.Attribute) and v.func.attr == "get" and v.args and isinstance(v.args[0], ast.Attribute) and v.args[0].attr == "id":
+                key = v.args[0].value
+                keyr = norm.subst(key, {k: e for k, e in env.items() if not (isinstance(ops, ast.Name) and k == ops.id)})
+                okv = want is not None and (norm.U(key) == want or norm.U(keyr) == want)
+            got.append(norm.U(v))
+            ok = ok and okv
+        ctx.ob(num, "K6", "the retry record attached to a job built for arriving work is the one registered for the job's own first operator", ok, f, c,
+               construct="WaitingQueueJob(ops=O, retry_stats=table.get(O[0].id))", detail=f"ops = {norm.U(ops)}; retry_stats defined as {got}; required key: {want}.id")
+    ctx.count_min("WaitingQueueJob( sites for arriving work with a looked-up retry record", n_sites, 1)
+
+
 def check_pool_choice(ctx, f, s_p):
     P = ctx.P
     from ..util import dealias
@@ -487,3 +529,7 @@ def run(ctx):
     check_job_loop(ctx, f, s_p, ql)
     check_pool_choice(ctx, f, s_p)
     check_suspension(ctx, f, s_p, qmap)
+    # the table of displaced work and the scan of suspended containers meet on the container id alone (#7): an id must name one container
+    from . import c09
+    c09.check_container_ids(Renumber(ctx, {2: 7}), 2)
+    check_retry_record(ctx, f, 4)
